@@ -112,7 +112,7 @@ func c19AddrOK(a *auctioneerrpc.NodeAddress) bool {
 		host = a.Addr
 	}
 	if tor.IsOnionHost(host) {
-		_, err = order.VerifParseOnionAddr(a.Addr)
+		_, err = order.VerifC19ParseOnionAddr(a.Addr)
 	} else {
 		_, err = net.ResolveTCPAddr(a.Network, a.Addr)
 	}
@@ -203,7 +203,7 @@ func c19TokSign(m *auctioneerrpc.OrderMatchSignBegin) string {
 // panic / timeout.
 func c19Handle(run func(c *auctioneer.Client) error) string {
 	st := &c19Stream{}
-	cl := auctioneer.VerifClientWithStream(st)
+	cl := auctioneer.VerifC19ClientWithStream(st)
 	return c19Guard(func() string {
 		_ = run(cl)
 		for _, m := range st.sent {
@@ -235,8 +235,8 @@ func c19ExecPrepare(r *Run, m *auctioneerrpc.OrderMatchPrepare, classOnly bool, 
 		msg := &auctioneerrpc.ServerAuctionMessage{
 			Msg: &auctioneerrpc.ServerAuctionMessage_Prepare{Prepare: m},
 		}
-		srv = c19Handle(func(c *auctioneer.Client) error { return pool.VerifRPCServerHandle(c, nil, msg) })
-		acc = c19Handle(func(c *auctioneer.Client) error { return pool.VerifAcceptorHandle(c, nil, msg) })
+		srv = c19Handle(func(c *auctioneer.Client) error { return pool.VerifC19RPCServerHandle(c, nil, msg) })
+		acc = c19Handle(func(c *auctioneer.Client) error { return pool.VerifC19AcceptorHandle(c, nil, msg) })
 	}
 	op := "prep"
 	if classOnly {
@@ -281,14 +281,14 @@ func c19ExecSign(r *Run, m *auctioneerrpc.OrderMatchSignBegin, kind string, wire
 	})
 	msg := &auctioneerrpc.ServerAuctionMessage{Msg: &auctioneerrpc.ServerAuctionMessage_Sign{Sign: m}}
 	// no prepare message was accepted before: there is no pending batch
-	srvNone := c19Handle(func(c *auctioneer.Client) error { return pool.VerifRPCServerHandle(c, nil, msg) })
-	accNone := c19Handle(func(c *auctioneer.Client) error { return pool.VerifAcceptorHandle(c, nil, msg) })
+	srvNone := c19Handle(func(c *auctioneer.Client) error { return pool.VerifC19RPCServerHandle(c, nil, msg) })
+	accNone := c19Handle(func(c *auctioneer.Client) error { return pool.VerifC19AcceptorHandle(c, nil, msg) })
 	// with a pending batch the rpcServer handler is observable up to the
 	// reject only
 	srvSome := "proceed"
 	if parse != "ok" {
 		srvSome = c19Handle(func(c *auctioneer.Client) error {
-			return pool.VerifRPCServerHandle(c, &order.Batch{}, msg)
+			return pool.VerifC19RPCServerHandle(c, &order.Batch{}, msg)
 		})
 	}
 	tok := c19TokSign(m)
